@@ -141,6 +141,9 @@ func (w *World) step(host string, pre Cookie, cookieVal string, q Req, a Ans, r 
 // RunCell executes one one-step cell.
 func (w *World) RunCell(n int, cell Cell, r *rand.Rand) Line {
 	host := HostFor(cell.Pol)
+	if host == hostEmail && r.Intn(3) == 0 {
+		host = hostAddr // the e-mail rule as a listed address
+	}
 	now := time.Now()
 	val := ""
 	var sess interface{}
